@@ -123,6 +123,7 @@ static void ref_request(const uint8_t *msg, size_t len, struct qref *o)
 		if (rc) { o->err = rc; return; }
 		if (qq.name.fwd_ptr || qq.name.overlong) o->lenient = 1;
 		if (i < 6) { o->q[i].len = dw_name_text(&qq.name, o->q[i].text, sizeof o->q[i].text); o->q[i].type = qq.type; o->q[i].class_ = qq.class_; o->q[i].has_nul = qq.name.has_nul; }
+		if (qq.name.has_nul) o->any_nul = 1;
 		o->nq++;
 	}
 	unsigned total = (unsigned)h.an + h.ns + h.ar;
@@ -319,7 +320,7 @@ static int is_canon(const struct spec *s)
 }
 static void generate(const char *tier)
 {
-	int thorough = !strcmp(tier, "thorough"), maxdev = thorough ? 4 : 3;
+	int thorough = !strcmp(tier, "thorough"), maxdev = thorough ? 4 : 2;
 	dd_cap = 1u << 19; dd = calloc(dd_cap, sizeof *dd);
 	struct spec s;
 	for (int h = 0; h < N_H; h++) for (int q = 0; q < N_Q; q++) for (int n = 0; n < N_N; n++) for (int t = 0; t < N_S; t++) {
@@ -328,7 +329,7 @@ static void generate(const char *tier)
 		memset(&s, 0, sizeof s); s.kind = K_GRAMMAR; s.h = (uint8_t)h; s.q = (uint8_t)q; s.n = (uint8_t)n; s.s = (uint8_t)t; s.canon = (uint8_t)is_canon(&s);
 		long id = add_spec(&s);
 		if (id < 0) continue;
-		add_item(id, SM_DIRECT, 1);
+		add_item(id, SM_DIRECT, (q == 7 && dev > 1 && n >= 6 && !thorough) ? 0 : 1);   /* 65535 questions x long names: whole message only in the quick tier (512 KiB calloc per execution) */
 		if (dev <= (thorough ? 3 : 2)) add_item(id, SM_UDP, dev <= (thorough ? 2 : 1) ? 1 : 0);
 		if (dev <= (thorough ? 2 : 1)) { add_item(id, SM_TCP, 2); add_item(id, SM_TCP, 4); }
 		if (dev <= (thorough ? 1 : 0)) { add_item(id, SM_TCP, 3); add_item(id, SM_TCP, 1); }
